@@ -54,3 +54,9 @@ def kconfigs_for(tier, checks, quick_rules=('localp', 'semilocalp'), quick_order
         for c in checks:
             if c != 5: ks.append(krule('pwc', 0, c, 243)); ks.append(krule('localp', 4, c, 129)); ks.append(krule('localp0', 5, c, 129))
     return ks
+
+
+def kmeta(tier):
+    import kengine
+    maxl = 10 if tier == 'quick' else 22
+    return [kengine.KConfig('K-meta-check%d-levels%d' % (c, maxl), 'K_meta', '-DCHECK=%d -DMAXL=%d' % (c, maxl), unwind=40, modv=36, link_lib=True) for c in (1, 2, 3)]
